@@ -340,6 +340,22 @@ type C16Nested struct {
 	Set   NSet
 	MSS   map[string][]string
 }
+
+// elements of collections are not pointerified, so their unexported fields stay in the type the manglers see (P16)
+type C16Item struct {
+	A      int
+	hidden int
+	C      string
+	T      time.Duration
+	secret *int
+}
+type C16Elems struct {
+	Name   string
+	Items  []C16Item
+	Pair   [2]C16Item
+	PItems []*C16Item
+	ByName map[string]C16Item
+}
 type C16Flat struct {
 	B          bool
 	S          string
@@ -359,7 +375,7 @@ type C16Flat struct {
 	Skip       int `dials:"-"`
 }
 
-var c16Static = []reflect.Type{rt[C16Server](), rt[C16Embed](), rt[C16Ptrs](), rt[C16Nested](), rt[C16Flat]()}
+var c16Static = []reflect.Type{rt[C16Server](), rt[C16Embed](), rt[C16Ptrs](), rt[C16Nested](), rt[C16Flat](), rt[C16Elems]()}
 
 // ---------- feature walker (what the known-finding predicates are written over) ----------
 
